@@ -285,7 +285,9 @@ func RunCtx(ctx interface{}, input string, trace bool, r *rt.Run, reinit bool) (
 			res = rt.Finish(r, p, false, 0, "")
 		}
 	}()
-	IsTrace = trace
+	if IsTrace != trace { // written only when it changes: concurrent parses all pass the same value
+		IsTrace = trace
+	}
 	c := ctx.(*Context)
 	if reinit {
 		c.ParserInit()
